@@ -62,6 +62,9 @@ func ClassifyCrash(stderr string) string {
 		return "crash:nil-dereference"
 	case strings.Contains(stderr, "negative WaitGroup counter"):
 		return "crash:negative-waitgroup"
+	case strings.Contains(stderr, "DATA RACE") && strings.Contains(stderr, "SingleRequestQueryer).WithMiddlewares") && !raceOutsideLibraryQueryer(stderr):
+		// the client library's WithMiddlewares stores the middlewares in the queryer it is called on (KF-D37)
+		return "crash:data-race:library-queryer-middlewares"
 	case strings.Contains(stderr, "DATA RACE"):
 		return "crash:data-race"
 	case strings.Contains(stderr, "all goroutines are asleep"):
@@ -72,4 +75,22 @@ func ClassifyCrash(stderr string) string {
 		return "crash:type-assertion"
 	}
 	return "crash:other"
+}
+
+// raceOutsideLibraryQueryer: does a race report name, as the racing access itself (the first frame after "Read at",
+// "Write at", "Previous read at", "Previous write at"), anything but the client library's network queryer?
+func raceOutsideLibraryQueryer(stderr string) bool {
+	lines := strings.Split(stderr, "\n")
+	for i, l := range lines {
+		t := strings.TrimSpace(l)
+		if strings.HasPrefix(t, "Read at ") || strings.HasPrefix(t, "Write at ") || strings.HasPrefix(t, "Previous read at ") || strings.HasPrefix(t, "Previous write at ") {
+			if i+1 < len(lines) {
+				fr := strings.TrimSpace(lines[i+1])
+				if !strings.Contains(fr, "graphql.(*SingleRequestQueryer).WithMiddlewares") && !strings.Contains(fr, "graphql.(*NetworkQueryer).sendRequest") {
+					return true
+				}
+			}
+		}
+	}
+	return false
 }
